@@ -31,15 +31,24 @@ var bMaxTTLs = []int64{0, 2, 15, 1 << 32, 8_000_000_000, maxDurSeconds, maxDurSe
 
 // bCase is one boundary case (also the replay record).
 type bCase struct {
-	Mode    string `json:"mode"` // "boundary"
-	MaxTTL  int64  `json:"max_ttl"`
-	TTL     int64  `json:"ttl"`
-	Advance int64  `json:"advance_ns"` // total clock advance after the Set
-	Read    string `json:"read"`       // "get" | "cleanup+get" | "tick+get"
+	Mode            string `json:"mode"` // "boundary"
+	MaxTTL          int64  `json:"max_ttl"`
+	TTL             int64  `json:"ttl"`
+	Advance         int64  `json:"advance_ns"`                         // total clock advance after the Set
+	Read            string `json:"read"`                               // "get" | "cleanup+get" | "tick+get"
+	StartNs         int64  `json:"start_offset_ns,omitempty"`          // the Set happens this long after a whole second
+	DefaultInterval bool   `json:"default_cleanup_interval,omitempty"` // CleanupInterval left at 0 (the default path of NewCache)
 }
 
 func (c *bCase) String() string {
-	return fmt.Sprintf("MaxTTL=%d Set(big,ttl=%ds) Set(ctl,ttl=3s) Advance(%v) %s", c.MaxTTL, c.TTL, time.Duration(c.Advance), c.Read)
+	extra := ""
+	if c.StartNs != 0 {
+		extra += fmt.Sprintf(" clock starts %v past a whole second", time.Duration(c.StartNs))
+	}
+	if c.DefaultInterval {
+		extra += " CleanupInterval left at its default"
+	}
+	return fmt.Sprintf("MaxTTL=%d%s Set(big,ttl=%ds) Set(ctl,ttl=3s) Advance(%v) %s", c.MaxTTL, extra, c.TTL, time.Duration(c.Advance), c.Read)
 }
 
 func effLife(ttl, maxTTL int64) int64 {
@@ -55,7 +64,7 @@ func advances(l int64) []int64 {
 		int64(24 * time.Hour): true, int64(100 * 365 * 24 * time.Hour): true, math.MaxInt64 - 1: true, math.MaxInt64: true}
 	if l <= maxDurSeconds {
 		ns := l * int64(time.Second)
-		for _, d := range []int64{-int64(time.Second), -1, 0, 1, int64(time.Second)} {
+		for _, d := range []int64{-int64(time.Second), -int64(500 * time.Millisecond), -1, 0, 1, int64(time.Second)} {
 			if v := ns + d; v >= 0 && (d <= 0 || v > ns) { // no overflow
 				set[v] = true
 			}
@@ -76,10 +85,13 @@ func evalBoundary(c *bCase) (key, msg string) {
 			key, msg = "boundary/panic", fmt.Sprintf("%s: panicked: %v", c, e)
 		}
 	}()
-	clk := clocktesting.NewFakeClock(epoch)
+	clk := clocktesting.NewFakeClock(epoch.Add(time.Duration(c.StartNs)))
 	every := time.Duration(math.MaxInt64)
 	if c.Read == "tick+get" {
 		every = cleanupEvery
+	}
+	if c.DefaultInterval {
+		every = 0 // NewCache's own default (150 s)
 	}
 	cache := ttlcache.NewCacheWithClock[int](ttlcache.CacheOptions{CleanupInterval: every, MaxTTL: c.MaxTTL}, clk)
 	defer cache.Stop()
@@ -150,7 +162,12 @@ func boundaryCases() []*bCase {
 		for _, t := range bTTLs {
 			for _, a := range advances(effLife(t, m)) {
 				for _, rd := range []string{"get", "cleanup+get", "tick+get"} {
-					out = append(out, &bCase{"boundary", m, t, a, rd})
+					out = append(out, &bCase{Mode: "boundary", MaxTTL: m, TTL: t, Advance: a, Read: rd})
+					if t <= 1<<32 && rd != "tick+get" {
+						// a clock that is not on a whole second, and the constructor's default interval
+						out = append(out, &bCase{Mode: "boundary", MaxTTL: m, TTL: t, Advance: a, Read: rd, StartNs: int64(600 * time.Millisecond)})
+						out = append(out, &bCase{Mode: "boundary", MaxTTL: m, TTL: t, Advance: a, Read: rd, DefaultInterval: true})
+					}
 				}
 			}
 		}
